@@ -80,6 +80,8 @@ fn gamma(a: f64) -> f64 {
 }
 
 pub fn eval(expr: Node) -> Result<Number, Box<dyn error::Error>> {
+    #[cfg(feature = "verif_hooks")]
+    crate::verif_hooks::tick();
     use self::Node::*;
     match expr {
         Num(i) => Ok(i),
@@ -234,6 +236,8 @@ pub fn eval(expr: Node) -> Result<Number, Box<dyn error::Error>> {
                     if (0..=20).contains(&n) {
                         let mut factorial_result = 1;
                         for i in 2..=(n as usize) {
+                            #[cfg(feature = "verif_hooks")]
+                            crate::verif_hooks::tick();
                             factorial_result *= i as i64;
                         }
                         Ok(Number::Integer(factorial_result))
@@ -257,6 +261,8 @@ pub fn eval(expr: Node) -> Result<Number, Box<dyn error::Error>> {
             let iterations = (4).max((sub_expr.log10() / 3.0).ceil() as i32);
             let mut w: f64 = 0.0;
             for _ in 0..iterations {
+                #[cfg(feature = "verif_hooks")]
+                crate::verif_hooks::tick();
                 let exp_w = w.exp();
                 w -= (w * exp_w - sub_expr)
                     / (exp_w * (w + 1.0) - (w + 2.0) * (w * exp_w - sub_expr) / (2.0 * w + 2.0));
@@ -276,6 +282,8 @@ pub fn eval(expr: Node) -> Result<Number, Box<dyn error::Error>> {
             };
             let mut x: i64 = 0;
             while n > 1.0 {
+                #[cfg(feature = "verif_hooks")]
+                crate::verif_hooks::tick();
                 x += 1;
                 n = (n.log10() / b.log10()).floor();
             }
